@@ -6,6 +6,7 @@ import (
 	"fmt"
 	"runtime"
 	"runtime/debug"
+	"slices"
 	"sort"
 	"strings"
 	"sync"
@@ -158,7 +159,7 @@ func c23Distinct(stats []*c23Stat) int64 {
 				all = append(all, s.buckets[b]...)
 				s.buckets[b] = nil
 			}
-			sort.Slice(all, func(i, j int) bool { return all[i] < all[j] })
+			slices.Sort(all)
 			var d int64
 			for i := range all {
 				if i == 0 || all[i] != all[i-1] {
@@ -258,6 +259,11 @@ func c23SplitUnits(menu []c23MenuFrame, enc []*c23Encoded, maxSeq int) []c23Unit
 					}
 					return false
 				}
+				var labels [4][2]string
+				for nc := 1; nc <= 3; nc++ {
+					labels[nc][0] = fmt.Sprintf("ok/%d-frames/%d-chunks/cuts-on-boundaries", len(seq), nc)
+					labels[nc][1] = fmt.Sprintf("ok/%d-frames/%d-chunks/cut-inside-frame", len(seq), nc)
+				}
 				one := func(cuts []int) bool {
 					st.evals++
 					inside := false
@@ -281,9 +287,9 @@ func c23SplitUnits(menu []c23MenuFrame, enc []*c23Encoded, maxSeq int) []c23Unit
 							h = c23Mix(h, uint64(c)+1)
 						}
 						st.add(c23Mix(h, uint64(len(cuts))))
-						st.outcomes[fmt.Sprintf("ok/%d-frames/%d-chunks/cut-inside-frame", len(seq), len(cuts)+1)]++
+						st.outcomes[labels[len(cuts)+1][1]]++
 					} else {
-						st.outcomes[fmt.Sprintf("ok/%d-frames/%d-chunks/cuts-on-boundaries", len(seq), len(cuts)+1)]++
+						st.outcomes[labels[len(cuts)+1][0]]++
 					}
 					return true
 				}
@@ -417,6 +423,10 @@ func c23PrefixUnits(maxPrefix int) []c23Unit {
 	return units
 }
 
+// c23QuickTruncPos: in the quick tier truncations are enumerated for substitutions in the
+// fixed header and length prefix (positions 0..2) only.
+const c23QuickTruncPos = 2
+
 // (b3) every single-byte substitution of every menu frame's encoding (alone, and in the
 // thorough tier also truncated at every later position and followed by a valid SEND frame).
 func c23MutationUnits(menu []c23MenuFrame, enc []*c23Encoded, thorough bool) []c23Unit {
@@ -429,6 +439,10 @@ func c23MutationUnits(menu []c23MenuFrame, enc []*c23Encoded, thorough bool) []c
 			n := L * 255
 			if thorough {
 				n = L*255 + 255*L*(L-1)/2 + L*255
+			} else {
+				for pos := int64(0); pos < L && pos <= c23QuickTruncPos; pos++ {
+					n += 255 * (L - 1 - pos)
+				}
 			}
 			units = append(units, c23Unit{sec: 3, vcase: vcase, size: n, run: func(w *c23Worker, st *c23Stat) {
 				follow := enc[vcase].wire[4] // small SEND
@@ -443,12 +457,14 @@ func c23MutationUnits(menu []c23MenuFrame, enc []*c23Encoded, thorough bool) []c
 						if !c23Arb(w, st, "mutations", vcase, m, true) {
 							return
 						}
-						if thorough {
+						if thorough || pos <= c23QuickTruncPos {
 							for k := pos + 1; k < len(m); k++ {
 								if !c23Arb(w, st, "mutations", vcase, m[:k], true) {
 									return
 								}
 							}
+						}
+						if thorough {
 							if !c23Arb(w, st, "mutations", vcase, append(m, follow...), true) {
 								return
 							}
@@ -487,7 +503,7 @@ func c23Permute(u []c23Unit, seed int64) {
 func TestVerifC23(t *testing.T) {
 	r := ev.Start(t, "C23")
 	defer r.Finish()
-	defer debug.SetGCPercent(debug.SetGCPercent(400))
+	defer debug.SetGCPercent(debug.SetGCPercent(200))
 	th := r.Thorough()
 
 	menu := c23Menu()
@@ -562,7 +578,7 @@ func TestVerifC23(t *testing.T) {
 		"every sequence of <= N menu frames (13-frame menu: all 12 frame types + a SEND with a 2-byte length prefix), encoded per version case, fed in every 1-, 2- and 3-chunk split; non-trivial = at least one cut strictly inside a frame; distinct = distinct (version case, stream, cut set)",
 		"every byte string of length <= N fed as one chunk (quick additionally: all 3-byte strings whose first byte is type<<4); non-trivial = type nibble != 0 (the decoder looks past the first byte); distinct = distinct (version case, input)",
 		"header byte (16 type nibbles x flags {0,F}) x every length-prefix string over {00,01,40,7F,80,81,FF} up to the bound x 5 body tails (none, 1, 20 zero, 20 FF, 130 bytes)",
-		"every single-byte substitution (255 values x every position) of every menu frame encoding; thorough: also every truncation after the mutated position and the mutated frame followed by a valid SEND",
+		"every single-byte substitution (255 values x every position) of every menu frame encoding, fed whole and (quick: for substitutions at positions 0..2 = header and length prefix; thorough: at every position) truncated at every later position; thorough: also followed by a valid SEND",
 	}
 	var split c23SplitStats
 	totals := make([]map[string]int64, len(c23Sections))
